@@ -38,7 +38,13 @@ def build_call(u, T):
         rt = None
     # every blocking entry point shares the deadline logic but has its own timeout mapping in the Python layer
     op = ("get", "get", "get", "get_many", "getnext", "getbulk", "refresh", "fetch")[u.below(8)]
-    return {"strays": strays, "reply": reply, "reply_at": None if rt is None else round(rt, 4), "op": op}
+    call = {"strays": strays, "reply": reply, "reply_at": None if rt is None else round(rt, 4), "op": op}
+    if reply != "early" and u.below(4) == 0:
+        # non-matching datagrams in the last 0.1 .. 1.5 ms before the deadline, given as distances from the deadline (they
+        # keep their distance when a schedule is scaled): the wait is re-armed with almost nothing left
+        k0 = u.below(4)
+        call["edge"] = [round(0.0001 * k, 4) for k in range(1 + k0, 16, 1 + u.below(3))]
+    return call
 
 
 def build_schedule(u):
@@ -131,7 +137,7 @@ def run_schedule(args):
         return (await it.__anext__())[1]
 
     def events_of(call):
-        return sorted([(t, "stray") for t in call["strays"]] + ([(call["reply_at"], "reply")] if call["reply_at"] is not None else []))
+        return sorted([(t, "stray") for t in call["strays"]] + [(T - d, "stray") for d in call.get("edge", [])] + ([(call["reply_at"], "reply")] if call["reply_at"] is not None else []))
 
     def emit(req, kind):
         probe = req["pdu_tag"] == rb.PDU_GET and not req["varbinds"]
@@ -293,6 +299,8 @@ def judge_call(sched, i, r):
     desc = "%s/%s T=%.2fs call %d of %d: strays at %r, reply %s%s -> %s after %.3fs" % (
         sched["driver"] + ":" + call.get("op", "get"), sched["ver"], T, i + 1, len(sched["calls"]), call["strays"], call["reply"],
         "" if call["reply_at"] is None else " at %.3f" % call["reply_at"], r["outcome"], r["elapsed"])
+    if call.get("edge"):
+        desc += " [plus non-matching datagrams %s ms before the deadline]" % ", ".join("%.1f" % (d * 1000) for d in call["edge"])
     if i:
         desc += " (earlier calls on this session: %r)" % ([(c["strays"], c["reply"]) for c in sched["calls"][:i]],)
     if r["outcome"] == "exc":
@@ -332,7 +340,7 @@ def run(rep, tier):
     from vlib import build
     pkg = build.ensure_ext()
     rep.rule = ("Hypothesis-generated batch of arrival schedules (T in {0.15,0.25,0.4}s; 0..8 non-matching datagrams with gaps 0.25T..0.8T; "
-                "matching reply none / early (0.2T..0.7T) / late (1.3T..2T)) x sync/async x v1/v2c/v3/v3 with engine-id discovery (first call = refresh() on a session without engine id; strays there are Reports of a foreign engine for another msgID; v3 strays are also stale Reports of the agent itself with another msgID), run in 16 worker processes. "
+                "optionally a run of non-matching datagrams 0.1..1.5 ms before the deadline; matching reply none / early (0.2T..0.7T) / late (1.3T..2T)) x sync/async x v1/v2c/v3/v3 with engine-id discovery (first call = refresh() on a session without engine id; strays there are Reports of a foreign engine for another msgID; v3 strays are also stale Reports of the agent itself with another msgID), run in 16 worker processes. "
                 "Each schedule is 1..3 consecutive calls on one session. Non-trivial = a call with >=2 strays and no timely matching reply, or a multi-call schedule; distinct by schedule.")
     rep.assumptions = ["wall-clock oracle with slack max(0.12s, 0.5T); an overrun must reproduce in two isolated re-runs to be reported",
                        "loopback latency is negligible against the 150..400 ms timeouts"]
@@ -374,6 +382,11 @@ def run(rep, tier):
                                     {"strays": [round(0.3 * T, 4)], "reply": "early", "reply_at": round(0.6 * T, 4), "op": "get"}]})
             canon.append({"T": T, "ver": "v3d", "driver": drv, "stray_kind": "foreign_engine",
                           "calls": [{"strays": [round(0.4 * T, 4), round(0.9 * T, 4), round(1.4 * T, 4)], "reply": "none", "reply_at": None, "op": "refresh"}]})
+            # a run of non-matching datagrams 1.2 .. 0.1 ms before the deadline, then the matching reply far too late
+            canon.append({"T": T, "ver": "v2c", "driver": drv, "stray_kind": "reqid",
+                          "calls": [{"strays": [round(0.5 * T, 4)], "edge": [round(0.0001 * k, 4) for k in range(12, 0, -1)],
+                                     "reply": "late", "reply_at": round(1.6 * T, 4), "op": "get"},
+                                    {"strays": [], "reply": "early", "reply_at": round(0.5 * T, 4), "op": "get"}]})
     scheds = canon + scheds
     ctx = mp.get_context("spawn")
     import concurrent.futures as cf
@@ -427,7 +440,7 @@ def run(rep, tier):
         rep.case(repr(s), nt, sample={"schedule": s, "outcomes": [x["outcome"] for x in r], "elapsed_s": [round(x["elapsed"], 3) for x in r]},
                  classes=["driver:" + s["driver"], "ver:" + s["ver"], "calls:%d" % len(s["calls"])] + ["reply:" + c_["reply"] for c_ in s["calls"]]
                  + ["op:" + c_.get("op", "get") for c_ in s["calls"]]
-                 + ["strays:%d" % min(len(c_["strays"]), 4) for c_ in s["calls"]] + ["outcome:" + x["outcome"] for x in r])
+                 + ["strays:%d" % min(len(c_["strays"]), 4) for c_ in s["calls"]] + ["deadline-edge-strays" for c_ in s["calls"] if c_.get("edge")] + ["outcome:" + x["outcome"] for x in r])
     rep.extra["scheduling_noise_events"] = noise
 
 
